@@ -71,4 +71,65 @@ theorem incomplete_is_viable (bs : Bytes) (s : St) (h : runBytes ojTables cfg1 {
   rw [Json.runBytes_eq_ref C01.ojTables_ok] at h
   exact accepted_prefix_viable bs s h
 
+theorem skipWs_eq_nil_append (bs : Bytes) (h : Spec.skipWs bs = []) (t : Bytes) :
+    Spec.skipWs (bs ++ t) = Spec.skipWs t := by
+  induction bs with
+  | nil => rfl
+  | cons b r ih =>
+    simp only [Spec.skipWs] at h
+    by_cases hb : Spec.isWs b = true
+    · simp only [hb, ↓reduceIte] at h
+      simp only [List.cons_append, Spec.skipWs, hb, ↓reduceIte]
+      exact ih h
+    · simp only [hb, Bool.false_eq_true, ↓reduceIte] at h; cases h
+
+/-- a blank text followed by `0` is a JSON text -/
+theorem blank_then_zero (bs : Bytes) (h : Spec.skipWs bs = []) : (Spec.parseText (bs ++ [48])).kind = 1 := by
+  unfold Spec.parseText
+  rw [skipWs_eq_nil_append bs h [48]]
+  have : Spec.skipWs [48] = [48] := rfl
+  rw [this]
+  simp only
+  have hp : ∀ n, Spec.pValue (n + 1) [48] = some (.num [48], []) := by intro n; rfl
+  rw [hp]
+  rfl
+
+/-- **Viable prefix, strong form.** Every prefix the reference automaton has accepted can be extended
+to exactly one valid JSON text (not merely to a blank text). -/
+theorem accepted_prefix_extends_to_text (p : Bytes) (s : St) (h : runBytes refTables cfg1 {} p = .ok s) :
+    ∃ q, (Spec.parseText (p ++ q)).kind = 1 := by
+  obtain ⟨q, hq⟩ := accepted_prefix_viable p s h
+  unfold InLang at hq
+  cases hk : Spec.parseText (p ++ q) with
+  | bad => rw [hk] at hq; exact absurd rfl hq
+  | one v => exact ⟨q, by rw [hk]; rfl⟩
+  | none =>
+    -- blank so far: append a zero
+    have hblank : Spec.skipWs (p ++ q) = [] := by
+      unfold Spec.parseText at hk
+      cases hs : Spec.skipWs (p ++ q) with
+      | nil => rfl
+      | cons b r =>
+        rw [hs] at hk
+        simp only at hk
+        split at hk
+        · split at hk <;> cases hk
+        · cases hk
+    refine ⟨q ++ [48], ?_⟩
+    rw [← List.append_assoc]
+    exact blank_then_zero (p ++ q) hblank
+
+
+/-- **C09, strong reading.** The input up to the reported byte can still be extended to exactly one
+valid JSON text; up to and including it, to nothing in the language. -/
+theorem error_position_first_unextendable_text (bs : Bytes) (e : Err)
+    (h : runBytes ojTables cfg1 {} bs = .error e) :
+    ∃ pre b post, bs = pre ++ b :: post ∧ (e.line, e.col) = lineColOf pre ∧
+      (∃ q, (Spec.parseText (pre ++ q)).kind = 1) ∧ ∀ q, ¬ InLang (pre ++ b :: q) := by
+  obtain ⟨pre, b, post, hbs, ⟨s1, hrun, hstep⟩, hpos⟩ := error_position C01.ojTables_ok cfg1 bs e h
+  rw [Json.runBytes_eq_ref C01.ojTables_ok] at hrun
+  rw [Json.step_eq_ref C01.ojTables_ok] at hstep
+  exact ⟨pre, b, post, hbs, hpos, accepted_prefix_extends_to_text pre s1 hrun,
+    rejected_byte_final pre b s1 e hrun hstep⟩
+
 end OjgVerif.C09
